@@ -26,19 +26,25 @@ func (q QualifierIO) String() string {
 	name, value := q.Unpack()
 	switch GetQualifierType(name) {
 	case QuotedQualifier:
-		return fmt.Sprintf("/%s=\"%s\"", name, value)
+		return fmt.Sprintf("/%s=\"%s\"", name, escapeQuotes(value))
 	case LiteralQualifier:
 		return fmt.Sprintf("/%s=%s", name, value)
 	case ToggleQualifier:
 		if value != "" && !searchString(name, builtinQualifierNames) {
 			// The name was only learnt as a flag from a bare occurrence in
 			// some record read earlier; its value here must not be dropped.
-			return fmt.Sprintf("/%s=\"%s\"", name, value)
+			return fmt.Sprintf("/%s=\"%s\"", name, escapeQuotes(value))
 		}
 		return "/" + name
 	default:
-		return fmt.Sprintf("/%s=\"%s\"", name, value)
+		return fmt.Sprintf("/%s=\"%s\"", name, escapeQuotes(value))
 	}
+}
+
+// escapeQuotes doubles every double quote of a value that is written between
+// double quotes, as the INSDC feature table definition prescribes.
+func escapeQuotes(value string) string {
+	return strings.Replace(value, "\"", "\"\"", -1)
 }
 
 // Format creates a QualifierFormatter object for the qualifier with the given
@@ -209,8 +215,40 @@ func qualifierNameParser(prefix string) pars.Parser {
 	}
 }
 
+// quotedValueParser matches a value between double quotes. A double quote
+// that belongs to the value is written twice; the token is the value with
+// those pairs reduced to one double quote again.
+func quotedValueParser(state *pars.State, result *pars.Result) error {
+	state.Push()
+	c, err := pars.Next(state)
+	if err != nil {
+		state.Pop()
+		return err
+	}
+	if c != '"' {
+		state.Pop()
+		return pars.NewError("expected opening `\"`", state.Position())
+	}
+	state.Advance()
+	for {
+		c, err = pars.Next(state)
+		if err != nil {
+			state.Pop()
+			return pars.NewError("expected closing `\"`", state.Position())
+		}
+		if c == '"' && (state.Request(2) != nil || state.Buffer()[1] != '"') {
+			break
+		}
+		state.Advance()
+	}
+	p, _ := pars.Trail(state)
+	pars.Skip(state, 1)
+	result.SetToken(bytes.Replace(p[1:], []byte("\"\""), []byte("\""), -1))
+	return nil
+}
+
 func quotedQualifierParser(prefix string) pars.Parser {
-	quoted := pars.Quoted('"')
+	quoted := quotedValueParser
 	p := append([]byte{'\n'}, []byte(prefix)...)
 	return func(state *pars.State, result *pars.Result) error {
 		state.Push()
